@@ -346,12 +346,12 @@ theorem epilogue_tstep {s : Shared} {t : Tid} {l : Loc} {ch : Choice} {s' l' evs
     (hs : tstep s t l ch = some (s', l', evs)) :
     (∀ e ∈ evs, e = Ev.gout t) ∧ s'.active = s.active ∧
     (l'.pc = .dUnlock ∨ l'.pc = .dRec ∨ l'.pc = .flush ∨ l'.pc = .idle) := by
-  rcases hpc with hpc | hpc | hpc | hpc <;> simp only [tstep, hpc] at hs <;>
+  rcases hpc with hpc | hpc | hpc | hpc <;> simp only [tstep, hpc] at hs <;> (try split at hs) <;>
     (injection hs with hs; injection hs with h1 h2; injection h2 with h2 h3; subst h1 h2 h3; simp)
 
 /-- the deferred calls of the closure and the flush never block and need no choice -/
 theorem epilogue_enabled (s : Shared) (t : Tid) (l : Loc) (ch : Choice)
     (hpc : l.pc = .dOut ∨ l.pc = .dUnlock ∨ l.pc = .dRec ∨ l.pc = .flush) : (tstep s t l ch).isSome = true := by
-  rcases hpc with hpc | hpc | hpc | hpc <;> simp [tstep, hpc]
+  rcases hpc with hpc | hpc | hpc | hpc <;> simp only [tstep, hpc] <;> (try split) <;> rfl
 
 end NodisVerif.GateProg
